@@ -197,6 +197,29 @@ def _extract(repo, out, log):
     if missing:
         shutil.rmtree(tmp_out, ignore_errors=True)
         raise CheckBroken("no fact file for workspace targets: %s" % ", ".join(sorted(missing)))
+    # workspace crate dependency closure (used to restrict class-hierarchy resolution of trait calls)
+    try:
+        meta = json.loads(subprocess.run(
+            ["cargo", "+nightly", "metadata", "--offline", "--format-version", "1"],
+            cwd=repo, capture_output=True, check=True, env=_env()).stdout)
+        names = {p["id"]: p["name"].replace("-", "_") for p in meta["packages"]}
+        ws = set(meta["workspace_members"])
+        direct = {}
+        for n in meta["resolve"]["nodes"]:
+            direct[n["id"]] = [d["pkg"] for d in n.get("deps", [])]
+        deps = {}
+        for m in ws:
+            seen, stack = set(), [m]
+            while stack:
+                x = stack.pop()
+                for d in direct.get(x, []):
+                    if d not in seen:
+                        seen.add(d)
+                        stack.append(d)
+            deps[names[m]] = sorted(set(names[d] for d in seen if d in ws))
+        json.dump(deps, open(os.path.join(tmp_out, "deps.json"), "w"))
+    except Exception:
+        pass
     files = sorted(os.listdir(tmp_out))
     size = sum(os.path.getsize(os.path.join(tmp_out, f)) for f in files)
     os.rename(tmp_out, out)
